@@ -155,6 +155,7 @@ NOT_YET = "not claimed"
 # properties whose numeric / control source functions are ALSO translated to Lean on every run (harness/translate) and
 # tied to the model by theorems Props/CxxTie.lean (`translated source = model`, then the main theorems restated for the source)
 TIE = {
+ "C03": "log_prob and sample_and_log_prob of both proposal wrappers (ZukoFlow, FlowJax), with the data transform and the neural density as parameters",
  "C04": "utils.logit, utils.sigmoid, the derived fields of BoundedTransform.__init__, to_unit_interval / from_unit_interval, and forward / inverse of LogitTransform, ProbitTransform, PeriodicTransform and AffineTransform (one row of coordinates at a time; CompositeTransform's mask bookkeeping is not translated)",
  "C02": "utils.logsumexp, utils.effective_sample_size, Samples.compute_weights (all seven stored fields), scaled_weights, the acceptance rule of rejection_sample",
  "C05": "SMCSamples.log_p_t and the statements of SMCSampler.log_prob / MCMCSampler.log_prob that form the kernel target",
